@@ -5,6 +5,7 @@ Everything is derived from the syntax trees of ``<root>/cola/**/*.py``; the
 package is never imported.
 """
 import ast
+import sys
 import hashlib
 import os
 
@@ -28,18 +29,92 @@ class Ent:
         return f"Ent({self.kind},{self.val if self.kind in ('module','external','builtin','local','xnp') else getattr(self.val,'qual',self.val)})"
 
 
+_NF_DIGEST = []
+
+
+def _nf_key(src):
+    import hashlib
+    if not _NF_DIGEST:
+        here = os.path.dirname(os.path.abspath(__file__))
+        h = hashlib.sha256()
+        for f in ("normalise.py", ):
+            with open(os.path.join(here, f), "rb") as fh:
+                h.update(fh.read())
+        h.update(sys.version.encode())
+        _NF_DIGEST.append(h.hexdigest())
+    return hashlib.sha256((_NF_DIGEST[0] + "\0" + src).encode()).hexdigest()
+
+
+def _nf_cache_dir():
+    if os.environ.get("COLA_VERIF_NO_NFCACHE"):
+        return None
+    d = os.path.join(os.path.dirname(os.path.dirname(os.path.abspath(__file__))), ".nfcache")
+    try:
+        os.makedirs(d, exist_ok=True)
+        return d
+    except OSError:
+        return None
+
+
+def _nf_cache_get(src):
+    d = _nf_cache_dir()
+    if d is None:
+        return None
+    import pickle
+    try:
+        path_ = os.path.join(d, _nf_key(src) + ".pkl")
+        with open(path_, "rb") as fh:
+            out = pickle.load(fh)
+        try:
+            os.utime(path_, None)
+        except OSError:
+            pass
+        return out
+    except Exception:
+        return None
+
+
+def _nf_cache_put(src, value):
+    d = _nf_cache_dir()
+    if d is None or os.environ.get("COLA_VERIF_NFCACHE_RO"):
+        return
+    import pickle
+    import tempfile
+    try:
+        fd, tmp = tempfile.mkstemp(dir=d, suffix=".tmp")
+        with os.fdopen(fd, "wb") as fh:
+            pickle.dump(value, fh, protocol=pickle.HIGHEST_PROTOCOL)
+        os.replace(tmp, os.path.join(d, _nf_key(src) + ".pkl"))
+        names = [n for n in os.listdir(d) if n.endswith(".pkl")]
+        if len(names) > 400:  # one-off entries of patched trees: keep the most recently used
+            names.sort(key=lambda n: os.path.getmtime(os.path.join(d, n)))
+            for n in names[:len(names) - 250]:
+                try:
+                    os.remove(os.path.join(d, n))
+                except OSError:
+                    pass
+    except Exception:
+        pass
+
+
 class Module:
     def __init__(self, name, path, rel, src, is_pkg):
         self.name, self.path, self.rel, self.src, self.is_pkg = name, path, rel, src, is_pkg
-        try:
-            self.tree = ast.parse(src, path)
-        except SyntaxError as e:  # pragma: no cover
-            raise AnalysisError(f"cannot parse {rel}: {e}")
-        # every analysis works on the normal form (single-use temporaries inlined, sa/normalise.py)
-        from sa.normalise import normalise
-        self.n_inlined = normalise(self.tree)
-        from sa.normalise import renumber_lines
-        renumber_lines(self.tree)  # lineno = program order of the normal form; the source line is kept in _src_line
+        # every analysis works on the normal form (sa/normalise.py).  The normal form of a file depends on nothing but its text and the
+        # normaliser, so it is memoised under /verif/.nfcache (not committed; rebuilt when absent) keyed by the digest of both.
+        cached = _nf_cache_get(src)
+        if cached is not None:
+            self.tree, self.n_inlined = cached
+        else:
+            try:
+                self.tree = ast.parse(src, path)
+            except SyntaxError as e:  # pragma: no cover
+                raise AnalysisError(f"cannot parse {rel}: {e}")
+            from sa.normalise import normalise
+            self.n_inlined = normalise(self.tree)
+            from sa.normalise import renumber_lines
+            renumber_lines(self.tree)  # lineno = program order of the normal form; the source line is kept in _src_line
+            _nf_cache_put(src, (self.tree, self.n_inlined))
         for parent in ast.walk(self.tree):
             for child in ast.iter_child_nodes(parent):
                 child._parent = parent
